@@ -76,6 +76,10 @@ type SurvCase struct {
 	IntervalMs int           `json:"interval_ms"`
 	Vars       int           `json:"vars"`
 	Subs       [][]int       `json:"subs"` // per subscription: the variable each monitored item watches
+	// TS: per subscription, per item: TimestampsToReturn of the Monitor call that
+	// creates the item (0 Source 1 Server 2 Both 3 Neither); missing = Both. Items
+	// of one subscription with different values are created by separate calls.
+	TS [][]int `json:"timestamps,omitempty"`
 	Faults     []Fault       `json:"faults"`
 	Observed   *SurvObserved `json:"observed,omitempty"`
 }
@@ -101,6 +105,15 @@ func genSurvCase(t *rapid.T) SurvCase {
 			items = append(items, rapid.IntRange(0, c.Vars-1).Draw(t, "var"))
 		}
 		c.Subs = append(c.Subs, items)
+	}
+	if rapid.Bool().Draw(t, "mixedTimestamps") {
+		for _, items := range c.Subs {
+			var ts []int
+			for range items {
+				ts = append(ts, rapid.IntRange(0, 3).Draw(t, "ts"))
+			}
+			c.TS = append(c.TS, ts)
+		}
 	}
 	nf := 1 + int(rapid.Uint64().Draw(t, "nfaults")%3)
 	for i := 0; i < nf; i++ {
@@ -347,6 +360,15 @@ func executeSurvival(c SurvCase) (res survResult, err error) {
 	hb := starve.Begin()
 	r := &survRun{c: c, t0: time.Now(), written: map[int64]time.Time{}, last: map[uint32]time.Time{}, count: map[uint32]int{}}
 	cls := map[string]bool{}
+	for _, ts := range c.TS {
+		seen := map[int]bool{}
+		for _, x := range ts {
+			seen[x] = true
+		}
+		if len(seen) > 1 {
+			cls["subscription-with-items-of-different-TimestampsToReturn"] = true
+		}
+	}
 	defer func() {
 		for k := range cls {
 			res.classes = append(res.classes, k)
@@ -451,22 +473,34 @@ func executeSurvival(c SurvCase) (res survResult, err error) {
 			sc()
 			return res, fmt.Errorf("%w: subscribe: %v", errSetup, e)
 		}
-		var reqs []*ua.MonitoredItemCreateRequest
+		groups := map[int][]*ua.MonitoredItemCreateRequest{}
 		for ii, v := range vars {
 			handle++
 			items = append(items, item{si, ii, v, handle})
-			reqs = append(reqs, opcua.NewMonitoredItemCreateRequestWithDefaults(srv.NodeID(varName(v)), ua.AttributeIDValue, handle))
+			ts := int(ua.TimestampsToReturnBoth)
+			if si < len(c.TS) && ii < len(c.TS[si]) && c.TS[si][ii] >= 0 && c.TS[si][ii] <= 3 {
+				ts = c.TS[si][ii]
+			}
+			groups[ts] = append(groups[ts], opcua.NewMonitoredItemCreateRequestWithDefaults(srv.NodeID(varName(v)), ua.AttributeIDValue, handle))
 		}
-		mres, e := sub.Monitor(sctx, ua.TimestampsToReturnBoth, reqs...)
-		sc()
-		if e != nil {
-			return res, fmt.Errorf("%w: monitor: %v", errSetup, e)
-		}
-		for _, x := range mres.Results {
-			if x.StatusCode != ua.StatusOK {
-				return res, fmt.Errorf("%w: monitor: %v", errSetup, x.StatusCode)
+		for ts := 0; ts <= 3; ts++ {
+			reqs := groups[ts]
+			if len(reqs) == 0 {
+				continue
+			}
+			mres, e := sub.Monitor(sctx, ua.TimestampsToReturn(ts), reqs...)
+			if e != nil {
+				sc()
+				return res, fmt.Errorf("%w: monitor: %v", errSetup, e)
+			}
+			for _, x := range mres.Results {
+				if x.StatusCode != ua.StatusOK {
+					sc()
+					return res, fmt.Errorf("%w: monitor: %v", errSetup, x.StatusCode)
+				}
 			}
 		}
+		sc()
 	}
 	wctx, wcancel := context.WithCancel(ctx)
 	wdone := make(chan struct{})
